@@ -233,6 +233,9 @@ func (el *eventloop) open(c *conn) error {
 	c.opened = true
 
 	out, action := el.eventHandler.OnOpen(c)
+	if !c.opened { // the connection has been closed inside OnOpen, e.g. by EventLoop.Close
+		return el.handleAction(c, action)
+	}
 	if out != nil {
 		if err := c.open(out); err != nil {
 			return err
